@@ -1,13 +1,17 @@
 """C19 — collaborative_call_once and thread-specific storage. See DESIGN.md section 4/C19."""
+import os
 import vlib
 from vlib import oracle_tie, Finding
+
+PRELUDE = os.path.join(vlib.VERIF, "harness", "prelude", "verif_atomic.h")
+MASK = 127      # collaborative_once_references_mask
 from props.common import BASE_TRUSTED
 
 PROP_FILES = ["Properties_C19"]
 TRUSTED = BASE_TRUSTED + [
     "modelled: the m_state word protocol of collaborative_once_flag (winner CAS, helper +1 CAS window, lifetime_guard pin, fetch_sub, set_completion_state, runner destruction)",
     "modelled, not verified: task_arena attach/execute/isolate and the moonlighting wait inside assist(), enumerable_thread_specific's table (claim CAS, growth) and combinable — real-thread oracle runs only; "
-    "the model is not tied step by step to the code; the unbounded invariant is stated (OInv) but only small configurations are settled (exhaustive evaluation inside Coq)",
+    "the trace-conformance replayer's canonicalisation (runner address -> winner thread, Python) and the lock-and-log hooks of drv_oncetrace are trusted; the decision which logged access is a model step is made inside Coq (OnceConf.takes_step)",
 ]
 
 
@@ -47,10 +51,116 @@ def ets_oracle(c, toks):
     return None
 
 
+REASONS = {1: "a step without shared access (assist / loop test) is not enabled in the model at that point", 2: "the model's thread does not perform this access at its program point",
+           3: "the value observed by the implementation differs from the model's", 4: "the model's step is not enabled (the implementation went on where the protocol must wait)",
+           5: "the value left behind differs from the model's", 6: "the access goes to another runner than in the model", 7: "the outcome of the winner CAS differs", 8: "throw flag differs"}
+
+
+def tdesc(c):
+    return "collaborative_call_once trace: %d threads, first %d attempt(s) throw, delay probability %d/256, seed %d" % (c[1], c[2], c[3], c[0])
+
+
+def canon_trace(toks):
+    """raw driver line -> (T, model input, outcome dict, readable events, log-level violations)"""
+    v = [int(x) for x in toks]
+    T = v[0]
+    end = v.index(-9, 1)
+    raw = [v[1 + 7 * i: 8 + 7 * i] for i in range((end - 1) // 7)]
+    succ, okc, excc, att = v[end + 1:end + 5]
+    owner = {}          # runner address -> tid of the winner that published it
+    dead = set()        # runners whose owner has seen m_ref_count == 0 in its destructor
+    throws = [0] * T
+    evs, txt, bad = [], [], []
+
+    def enc(x):
+        if x in (0, 1):
+            return x
+        base = x & ~MASK
+        return (owner[base] + 1) * 1000 + (x & MASK) if base in owner else -5
+
+    for (tid, var, runner, kind, before, after, ok) in raw:
+        if var == 1:
+            if kind == 4 and ok and before == 0:
+                owner[after] = tid
+            evs += [tid, 1, 0, kind, enc(before), enc(after), ok]
+            txt.append("T%d m_state %s %s->%s%s" % (tid, {1: "load", 4: "CAS", 6: "fetch_sub"}.get(kind, kind), enc(before), enc(after), "" if ok else " (failed)"))
+        elif var == 2:
+            r = owner.get(runner, 99)
+            if runner in dead:
+                bad.append("T%d accesses m_ref_count of T%d's runner after that runner was destroyed" % (tid, r))
+            if kind == 1 and before == 0 and r == tid:
+                dead.add(runner)
+            sb, sa = (before if before < 2 ** 63 else before - 2 ** 64), (after if after < 2 ** 63 else after - 2 ** 64)
+            evs += [tid, 2, r, kind, sb, sa, ok]
+            txt.append("T%d runner(T%d).m_ref_count %s %d->%d" % (tid, r, {1: "load", 5: "++", 6: "--"}.get(kind, kind), sb, sa))
+        else:
+            throws[tid] = 1 if ok else 0
+            evs += [tid, 3, 0, 0, 0, 0, ok]
+            txt.append("T%d function %s" % (tid, "threw" if ok else "completed"))
+    return T, [T] + throws + [-1] + evs, dict(SUCC=succ, OK=okc, EXC=excc, ATT=att), txt, bad
+
+
+def trace_tie(ctx, exe, cases, only_replay=False):
+    rc, lines, err = ctx.run_driver(exe, [], cases, timeout=900)
+    inputs, metas = [], []
+    for c, ln in zip(cases, lines):
+        toks = ln.split()
+        if not toks or toks[-1] == "HANG" or not toks[0].lstrip("-").isdigit():
+            ctx.add(Finding("violation", "once-trace-hang", tdesc(c) + ": a caller never returns", {"tie": "once-trace", "case": c}))
+            continue
+        T, minp, out, txt, bad = canon_trace(toks)
+        inputs.append(minp)
+        metas.append((c, out, txt, bad))
+    if len(lines) < len(cases):
+        ctx.add(Finding("violation", "once-trace-crash", tdesc(cases[len(lines)]) + ": the driver died (rc=%s)" % rc, {"tie": "once-trace", "case": cases[len(lines)]}))
+    nbad = 0
+    for (c, out, txt, bad), m in zip(metas, ctx.modelrun("onceconf", inputs)):
+        ctx.count(("once-trace", tuple(c)), True, "trace T=%d throws=%d" % (c[1], c[2]))
+        idx, reason, quiescent, msucc, mbad, mok, mexc = m
+        T, nthrow = c[1], c[2]
+        viol = None
+        if bad:
+            viol = ("once-use-after-destroy", bad[0])
+        elif out["SUCC"] != (1 if nthrow < T else 0):
+            viol = ("once-not-exactly-one-success", "the function completed successfully %d times" % out["SUCC"])
+        elif out["OK"] + out["EXC"] != T or out["EXC"] != min(nthrow, T):
+            viol = ("once-exception-delivery", "%d callers returned normally, %d with the exception (%d attempts were to throw)" % (out["OK"], out["EXC"], nthrow))
+        if viol:
+            nbad += 1
+            ctx.add(Finding("violation", viol[0], "%s: %s; access log: %s" % (tdesc(c), viol[1], "; ".join(txt)[-1500:]), {"tie": "once-trace", "case": c}))
+        elif idx >= 0:
+            nbad += 1
+            if nbad <= 3:
+                ctx.add(Finding("broken", "broken:tie:once-trace", "%s: logged access #%d (%s) does not conform to OnceModel: %s; log up to there: %s" % (
+                    tdesc(c), idx, txt[idx] if idx < len(txt) else "?", REASONS.get(reason, reason), "; ".join(txt[max(0, idx - 12):idx + 1])), {"tie": "once-trace", "case": c}))
+        elif (quiescent, msucc, mbad, mok, mexc) != (1, out["SUCC"], 0, out["OK"], out["EXC"]):
+            nbad += 1
+            ctx.add(Finding("broken", "broken:tie:once-trace", "%s: the log conforms but the outcome differs: model (quiescent, successes, bad, ok, exc) = %s, implementation %s" % (
+                tdesc(c), (quiescent, msucc, mbad, mok, mexc), out), {"tie": "once-trace", "case": c}))
+        else:
+            ctx.traces_validated += 1
+    ctx.ties.append({"name": "once-trace (every access to m_state / m_ref_count replayed on OnceModel by OnceConf.conform)", "cases": len(cases), "disagreements": nbad})
+
+
+def build_trace(ctx, lib):
+    return ctx.build_driver("drv_oncetrace", libs=[lib], extra=["-include", PRELUDE], opt="-O1")
+
+
 def run(ctx):
     lib, err = ctx.build_lib("tbb")
     if err:
         return ctx.broken("libtbb build", err)
+    texe, err = build_trace(ctx, lib)
+    if err:
+        return ctx.broken("drv_oncetrace build (collaborative_call_once.h under the atomic prelude)", err)
+    rng0 = ctx.rng
+    tcases = []
+    for i in range(ctx.scale(400, 12000)):
+        T = rng0.choice([2, 2, 3, 3, 4, 5])
+        tcases.append([ctx.seed * 100000 + i, T, min(rng0.choice([0, 0, 1, 1, 2, T]), T), rng0.choice([0, 40, 120, 255])])
+    ctx.rules.append("once-trace: 2-5 real threads, 0..T throwing attempts, seeded delays at the logged accesses; every access to m_state and to a published runner's m_ref_count "
+                     "(executed and logged under one lock) must be the next access of OnceModel's thread, observe the model's value and leave the model's value; outcome counters equal")
+    trace_tie(ctx, texe, tcases)
     exe, err = ctx.build_driver("drv_once", libs=[lib], opt="-O1")
     if err:
         return ctx.broken("drv_once build", err)
@@ -84,6 +194,9 @@ def run(ctx):
 def replay(ctx, rep):
     lib, err = ctx.build_lib("tbb")
     exe, err = ctx.build_driver("drv_once", libs=[lib], opt="-O1")
+    if rep.get("tie") == "once-trace":
+        texe, err = build_trace(ctx, lib)
+        return trace_tie(ctx, texe, [rep["case"]])
     if rep.get("tie") == "ets":
         oracle_tie(ctx, "ets", exe, ["ets"], [rep["case"]], ets_oracle, describe=edesc)
     else:
